@@ -22,11 +22,13 @@ struct Args {
     n: usize,
     out: String,
     threads: usize,
+    /// generate only these case indices (replay / corpus)
+    only: Option<Vec<usize>>,
 }
 
 fn parse_args() -> Args {
     let a: Vec<String> = std::env::args().collect();
-    let mut args = Args { suite: a[1].clone(), seed: 1, n: 100, out: ".".into(), threads: 16 };
+    let mut args = Args { suite: a[1].clone(), seed: 1, n: 100, out: ".".into(), threads: 16, only: None };
     let mut i = 2;
     while i < a.len() {
         match a[i].as_str() {
@@ -34,6 +36,7 @@ fn parse_args() -> Args {
             "--n" => args.n = a[i + 1].parse().unwrap(),
             "--out" => args.out = a[i + 1].clone(),
             "--threads" => args.threads = a[i + 1].parse().unwrap(),
+            "--only" => args.only = Some(a[i + 1].split(',').filter_map(|x| x.parse().ok()).collect()),
             x => panic!("unknown arg {}", x),
         }
         i += 2;
@@ -1723,11 +1726,18 @@ fn main() {
             let rcache = rcache.clone();
             let suite = args.suite.clone();
             let seed = args.seed;
+            let only = args.only.clone();
             handles.push(s.spawn(move || {
                 let mut out = String::new();
                 let mut st = Stats::default();
                 let mut idx = t;
                 while idx < n {
+                    if let Some(o) = &only {
+                        if !o.contains(&idx) {
+                            idx += threads;
+                            continue;
+                        }
+                    }
                     match suite.as_str() {
                         "C01" | "C04" | "C05" | "find" => case_find(seed, idx, &suite, &cache, &rcache, &mut out, &mut st),
                         "C02" => case_c02(seed, idx, &cache, &rcache, &mut out, &mut st),
@@ -1751,7 +1761,7 @@ fn main() {
     });
     let mut all = String::new();
     let mut stats = Stats::default();
-    if args.suite == "C02" || args.suite == "C03" {
+    if (args.suite == "C02" || args.suite == "C03") && args.only.is_none() {
         // the repository corpora always come first
         let mut o = String::new();
         let mut s = Stats::default();
@@ -1768,7 +1778,7 @@ fn main() {
         all.push_str(&o);
         stats.merge(s);
     }
-    if args.suite == "C08" {
+    if args.suite == "C08" && args.only.is_none() {
         let mut o = String::new();
         let mut s = Stats::default();
         c08_fixed(&rcache, &mut o, &mut s);
